@@ -140,7 +140,27 @@ pub fn install_panic_hook() {
         } else {
             "<non-string panic>".to_string()
         };
-        LAST_PANIC.with(|p| *p.borrow_mut() = Some(format!("{} @ {}", msg, loc)));
+        // locate the innermost frame inside the repository under test
+        let mut site = String::new();
+        if !loc.contains("/repo/") || std::env::var("VERIF_BT").is_ok() {
+            let bt = std::backtrace::Backtrace::force_capture().to_string();
+            let lines: Vec<&str> = bt.lines().collect();
+            for (i, l) in lines.iter().enumerate() {
+                let l = l.trim();
+                if let Some(path) = l.strip_prefix("at ") {
+                    if path.starts_with("/repo/") && i > 0 {
+                        let func = lines[i - 1].trim();
+                        let func = func.split_once(": ").map(|x| x.1).unwrap_or(func);
+                        let fname = func.rsplit("::").next().unwrap_or(func);
+                        let file = path.split(':').next().unwrap_or(path);
+                        site = format!(" in {} ({})", fname, file.trim_start_matches("/repo/"));
+                        break;
+                    }
+                }
+            }
+        }
+        let loc = if loc.contains("/repo/") { loc.replace("/repo/", "") } else { loc.rsplit('/').take(3).collect::<Vec<_>>().into_iter().rev().collect::<Vec<_>>().join("/") };
+        LAST_PANIC.with(|p| *p.borrow_mut() = Some(format!("{}{} @ {}", msg, site, loc)));
         if !quiet {
             default(info);
         }
@@ -549,7 +569,7 @@ pub fn finish(fin: Finish, rep: Report) -> i32 {
         println!("KNOWN-FINDING: property={} {} [signature {} hit {} times]", ctx.prop, what, k, n);
     }
     for (i, (v, tape, render)) in rep.violations.iter().enumerate() {
-        let path = dir.join("replays").join(format!("{}-{}-seed{}-{}.json", ctx.prop, ctx.tier, ctx.seed, i));
+        let path = dir.join("replays").join(format!("{}-{}{}-seed{}-{}.json", ctx.prop, ctx.tier, if ctx.build == "checked" { String::new() } else { format!("-{}", ctx.build) }, ctx.seed, i));
         let body = json!({
             "property": ctx.prop, "signature": v.sig, "detail": v.detail,
             "part": rep.viol_parts.get(i), "tape": tape, "case": render,
